@@ -13,7 +13,7 @@ PROPS = {
                       "emitted by TLC and executed on the real library. Every recorded addition of the real library is judged by TLC against the abstract postcondition of Ops.tla "
                       "(instant shifted exactly, same representation and offset, all fields valid) under the mode the trace spec tracks; "
                       "systematic day-by-day sweeps over every year type and mode plus seeded random points/durations.",
-        "drivers": ["c01"],
+        "drivers": ["c01", "suite_add"],
         "mc": [{"module": "MC_C01.tla", "cfg": "MC_C01.cfg"},
                {"module": "MC_C01.tla", "cfg": "MC_C01_twin1.cfg", "expect_violation": True},
                {"module": "MC_C01.tla", "cfg": "MC_C01_twin2.cfg", "expect_violation": True, "tier": "thorough"},
@@ -30,7 +30,7 @@ PROPS = {
         "level_text": "All six operators on every ordered pair of each pool, hash ids, sorted order, set size and transitivity of the real "
                       "library are judged by TLC against the order of the instants on the integer timeline; pools are built so that many "
                       "members are the same instant spelled differently (representation, offset, precision, 24:00) or 1 s apart across boundaries.",
-        "drivers": ["c02"], "mc": [], "expect_ops": ["Cmp", "Pool"],
+        "drivers": ["c02", "suite_cmp1"], "mc": [], "expect_ops": ["Cmp", "Pool", "Cmp1"],
         "rule": "one case = one pool of 6-7 time points under one mode (36-49 ordered pairs + sort/set/hash); every pool is non-trivial "
                 "(it contains respelled and 1-second-shifted members by construction)",
         "assumptions": TRUST,
@@ -39,7 +39,7 @@ PROPS = {
         "technique": "TLA+ spec (Ops.tla SubClause: signed distance on the timeline) + TLC trace validation of a-b and the three identities",
         "level_text": "Every recorded difference is judged by TLC: exact, single-signed, fields in range, length = distance of the instants; "
                       "(a-b)==-(b-a), b+(a-b)==a and (p+d)-p==d are recorded as library results and re-derived on the timeline.",
-        "drivers": ["c04"], "mc": [], "expect_ops": ["SubTP", "Ident", "RoundTrip"],
+        "drivers": ["c04", "suite_subtp"], "mc": [], "expect_ops": ["SubTP", "Ident", "RoundTrip", "SuiteEnd"],
         "rule": "one case = one ordered pair (a, b) (or one (p, d) round trip); non-trivial = different years, representations or offsets",
         "assumptions": TRUST,
     },
